@@ -75,6 +75,12 @@ def check_exit_contract(ctx, f: FuncInfo, rule: str) -> None:
             continue
         n_returns += 1
         val = node.expr
+        if isinstance(val, ast.Name) and len(node.preds) == 1:
+            # `code = other.execute(...); return code`: the value is the call of the only predecessor
+            pred = cfg.nodes[node.preds[0][0] if isinstance(node.preds[0], tuple) else node.preds[0]]
+            ps = pred.stmt
+            if pred.kind == "stmt" and isinstance(ps, ast.Assign) and len(ps.targets) == 1 and isinstance(ps.targets[0], ast.Name) and ps.targets[0].id == val.id:
+                val = ps.value
         states = {transfer(node, s)[0] for s in IN[node.id]}
         what = f"{short(node.stmt)} @ predecessor-state"
         if isinstance(val, ast.Constant) and isinstance(val.value, int) and not isinstance(val.value, bool):
